@@ -6,6 +6,7 @@ import (
 	"go/ast"
 	"go/token"
 	"go/types"
+	"rscheck/rules/reent"
 	"sort"
 	"strings"
 
@@ -64,7 +65,18 @@ func (s spec) String() string {
 	return fmt.Sprintf("(first=%d last=%d step=%d arity=%d)", s.first, s.last, s.step, s.arity)
 }
 
+func reentrant(c *core.Ctx) {
+	var roots []*core.Fn
+	for _, n := range []string{"HandleFilterKeyWithCommand", "FilterKey", "FilterCommands", "FilterDB", "FilterSlot"} {
+		if f := c.FuncOpt("redis-shake/filter", "", n); f != nil {
+			roots = append(roots, f)
+		}
+	}
+	reent.Check(c, "R6.reentrant", roots, []string{"redis-shake/filter"}, "one command-parser goroutine per source node")
+}
+
 func Run(c *core.Ctx) {
+	defer reentrant(c)
 	pk := c.Pkg(pkgFilter)
 	gmk := c.Func(pkgFilter, "", "getMatchKeys")
 	wrap := c.Func(pkgFilter, "", "HandleFilterKeyWithCommand")
@@ -156,7 +168,7 @@ func Run(c *core.Ctx) {
 	// ---- R4, R5
 	wiring(c, it, wrap, fkey)
 	c.Expect("R5.predicate", 3)
-	c.Expect("R4.verdict", 9)
+	c.Expect("R4.verdict", 8)
 	c.Expect("R4.caller", 2)
 }
 
